@@ -4,6 +4,7 @@ import PyIpmi.Props.C12
 #print axioms PyIpmi.Props.C12.floor_ok
 #print axioms PyIpmi.Props.C12.get_entry_exact
 #print axioms PyIpmi.Props.C12.entries_exact
+#print axioms PyIpmi.Props.C12.truncating_device_read_exactly
 #print axioms PyIpmi.Props.C12.empty_log_nothing
 #print axioms PyIpmi.Props.C12.get_and_clear_atomic
 #print axioms PyIpmi.Props.C12.get_and_clear_repeats_both_steps
